@@ -27,6 +27,8 @@ PROXY_SEED = b"PROXY TCP4 10.0.0.1 10.0.0.2 1111 80\r\nGET /p HTTP/1.1\r\nHost: 
 ALPHABET = [b"\x00", b"\r", b"\n", b" ", b"\t", b":", b";", b"\x7f", b"\x80", b"\xff", b"a", b"0", b"\xe9", b","]
 PLAIN = b"GET /plain HTTP/1.1\r\nHost: ok\r\n\r\n"
 PEER_TCP = ("127.0.0.1", 40000)
+PEER_TCP6 = ("::1", 40000, 0, 0)         # what accept() returns on an AF_INET6 listener
+PEERS = {"tcp": PEER_TCP, "tcp6": PEER_TCP6, "unix": ""}
 
 
 class App:
@@ -66,10 +68,11 @@ def judge(data, ending, o, calls, proxy_mode):
     if acceptable is not None and len(calls) > acceptable:
         return "app-called-for-unacceptable-request", "%d application calls, the strict reading has %d acceptable request(s): calls %r" % (
             len(calls), acceptable, [c[:2] for c in calls])
-    if ending != "halfclose":
+    if ending not in ("halfclose", "idle"):
         return None
     if not o.server_closed:
-        return "connection-left-open", "client half-closed but the server end stayed open"
+        return "connection-left-open", ("client half-closed but the server end stayed open" if ending == "halfclose" else
+                                        "client silent for three keep-alive periods, the server end is still open")
     methods = [c[0].encode("latin-1") for c in calls]
     resps, problems = rfc_response.read_all(o.wire, methods + [b"GET"], True)
     n200 = 0
@@ -154,7 +157,7 @@ def _task(t):
     proxy_mode = gname == "proxy"
     if proxy_mode:
         kw.update({"proxy_protocol": True, "proxy_allow_ips": "*"})
-    peer = PEER_TCP if peer_k == "tcp" else ""
+    peer = PEERS[peer_k]
     app = App()
     b = bench.Bench(kind, kw, app)
     evals = 0
@@ -201,6 +204,10 @@ def _task(t):
     return {"evals": evals, "viols": list(viols.values()), "outcomes": outcomes, "key": repr(t)}
 
 
+def kind_of_worker(wi):
+    return WORKERS[wi][0]
+
+
 def run(ctx):
     tasks = []
     for wi in range(len(WORKERS)):
@@ -216,6 +223,12 @@ def run(ctx):
                 tasks.append((wi, "proxy", "halfclose", "tcp", shard))
                 tasks.append((wi, "rejects-small", "reset-after-read", "tcp", shard))
                 tasks.append((wi, "rejects-small", "close", "unix", shard))
+                tasks.append((wi, "rejects-small", "halfclose", "tcp6", shard))
+                tasks.append((wi, "prefixes", "halfclose", "tcp6", shard))
+                if kind_of_worker(wi) == "async":
+                    # the client stays connected and silent: only the keep-alive timer ends the wait
+                    tasks.append((wi, "prefixes", "idle", "tcp", shard))
+                    tasks.append((wi, "rejects-small", "idle", "unix", shard))
                 if ctx.thorough:
                     tasks.append((wi, "mutations", "reset-after-read", "tcp", shard))
                     tasks.append((wi, "mutations", "halfclose", "unix", shard))
@@ -244,7 +257,8 @@ def run(ctx):
         "follow_up_requests": "one plain request on the same worker object after every %d hostile connections" % FOLLOW_EVERY,
     }
     return Result("exploration", cov, viols,
-                  ["the client sends its bytes and ends the connection before the worker runs (or resets it right after the worker's first read)",
+                  ["the client sends its bytes and ends the connection before the worker runs (or resets it right after the worker's first read); "
+                   "ending 'idle' (async workers): the client stays connected and silent, the keep-alive timer fires in the worker's wait",
                    "a request is 'acceptable' by its head (the server streams bodies): a body-level error surfaces inside the application",
                    "closing the server socket twice is not a violation; using it after close is"])
 
@@ -255,7 +269,7 @@ def replay(case):
     proxy_mode = case["gen"] == "proxy"
     if proxy_mode:
         kw.update({"proxy_protocol": True, "proxy_allow_ips": "*"})
-    peer = PEER_TCP if case["peer"] == "tcp" else ""
+    peer = PEERS[case["peer"]]
     app = App()
     b = bench.Bench(kind, kw, app)
     try:
